@@ -23,7 +23,8 @@ def check(pid, category, text, note, technique, engine, design_ref):
 
 
 E3_NOTE = ("Bounded: every expectation list of n expectations x m output lines in the stated sizes, every quantifier "
-           "vector, final newline present/absent; the match relation is fully symbolic. Trusts: Rule::matches is the "
+           "vector, final newline present/absent; the match relation is fully symbolic (lists of 2..3 expectations x <= 4 lines also with two "
+           "neighbouring expectations being the very same rule). Trusts: Rule::matches is the "
            "only channel from line content to control flow (checked by the coverage query), built-in rules are pure; "
            "z3 (cross-checked against z3 4.8.12 and cvc5 on the small sizes).")
 E3_TECH = "dynamic symbolic execution of the compiled matcher over a symbolic match matrix; z3 decides coverage + property per quantifier vector; models replayed natively"
@@ -172,7 +173,8 @@ check("C09", "other",
       "the stream that validate compares; replayed through the real update generators on a real document. Shell expressions of 2–3/4 lines (empty lines, lines "
       "starting or ending in a blank, a trailing empty line) are written as `$ ` / `> ` lines that parse back to exactly that expression. Longer outputs and "
       "Document level: generate_testcases of the Markdown / Cram generator composed with the format's real document parser on the one-line family with |u| <= 1/2 "
-      "(title, fence / indentation included). Longer outputs are outside.",
+      "(title, fence / indentation included). `--convert markdown` of a Cram test: the Markdown generator writes the Cram stream / line-ending configuration after "
+      "the language. Longer outputs are outside.",
       E2_NOTE + " Additionally trusts lib/miniregex.py.", E2_TECH, "E2", "DESIGN.md §3 C09")
 
 check("C17", "other",
@@ -221,7 +223,8 @@ check("C20", "other",
       "through the real binary on real documents. The real FileParser::find_and_parse over a file-system stub yields one parsed document per named "
       "file and per matching file below a named directory (depth first), in the order given (every ordered selection of 1..3 of 4 paths; a "
       "two-level directory tree named in 4 ways), and fails when one of those documents cannot be read (shallow, deep, top level; exit status 1 "
-      "end to end). That the executors run each test case once and in order (C14 / C15), the file system's own listing order and parse errors are "
+      "end to end). Front-matter prepend / append paths are resolved against the document's directory, --prepend / --append-test-file-paths are taken as given "
+      "(real paths; an end-to-end run with a relative -P). That the executors run each test case once and in order (C14 / C15), the file system's own listing order and parse errors are "
       "not claimed.",
       E2_NOTE + " Stubs as listed in the evidence; the executor-result shapes are validated every run by real `scrut test` runs on sampled scripts.",
       "bounded symbolic execution of the MIR of commands::test::Args::run and main (bin crate) with a scripted executor and free validation verdicts; "
